@@ -165,6 +165,25 @@ func init() {
 		}
 		return L(I32s(ta), L(prs...))
 	}
+	// widened: select against PrevOne: [a, PrevOne(ws, 0, a)] (PrevOne not called when a == 0)
+	selPrev := func(ws []uint64, x int32) string {
+		pv := int32(-1)
+		if x >= 1 {
+			pv = bitmap.PrevOne(ws, 0, x)
+		}
+		return L(I32(x), I32(pv))
+	}
+	Exec["bitmap.PrevOne/Select32"] = func(a []V) string {
+		ws := a[0].U64s()
+		x, _ := bitmap.Select32(ws, bitmap.IndexSelect32(ws), a[1].I32())
+		return selPrev(ws, x)
+	}
+	Exec["bitmap.PrevOne/Select32R64"] = func(a []V) string {
+		ws := a[0].U64s()
+		sidx, ridx := bitmap.IndexSelect32R64(ws)
+		x, _ := bitmap.Select32R64(ws, sidx, ridx, a[1].I32())
+		return selPrev(ws, x)
+	}
 	Register("C02", genC02)
 }
 
@@ -330,6 +349,16 @@ func genC02(g *Gen) {
 		g.Do("bitmap.Rank128/Select32R64", L(w, Int(i)), key)
 		g.Do("bitmap.Select32/NextOne", L(w, Int(i)), key)
 		g.Do("bitmap.Select32R64/NextOne", L(w, Int(i)), key)
+		// PrevOne from the selected bit: the previous 1-bit in the same word / an earlier word / none
+		pkey := ""
+		if i > 0 {
+			d := os[i]>>6 - os[i-1]>>6
+			pkey = fmt.Sprintf("prev/d%d/b%d", c02Cap(d, 3), (os[i]&63)>>3)
+		} else if os[0] > 0 {
+			pkey = fmt.Sprintf("prev/none/w%d", c02Cap(os[0]>>6, 3))
+		}
+		g.Do("bitmap.PrevOne/Select32", L(w, Int(i)), pkey)
+		g.Do("bitmap.PrevOne/Select32R64", L(w, Int(i)), pkey)
 	}
 	// NextOne(p) against select(rank(p)); any p inside the bitmap, also past the last 1-bit
 	nfrom := func(ws []uint64, os []int, p int) {
